@@ -70,3 +70,19 @@ def castOrNull (cast : Cast) (fields : List String) (row : Row) : Row :=
                            | none => Row.set r f .null) row
 
 end Df
+
+namespace Df
+
+/-! ## set_type's `transform` (processors/set_type.py, `transformer`)
+
+`row[f] = transform(row.get(f))` for every checked field, in order, before the cast — missing values
+included.  `tr` is the user's function of (field name, value). -/
+
+def transformRow (tr : String → Val → Val) (fields : List String) (row : Row) : Row :=
+  fields.foldl (fun r f => Row.set r f (tr f (Row.getD r f))) row
+
+def setTypeRows (tr : String → Val → Val) (cast : Cast) (pol : Policy) (res : String) (fields : List String)
+    (rows : List Row) : Except Err (List Row) :=
+  schemaValidator cast pol res fields (rows.map (transformRow tr fields))
+
+end Df
